@@ -14,6 +14,12 @@ brought to the same documents, with and without a workspace root.
 command execution); they are run at full speed, with seeded jitter, on the harness built with
 -race: any race report is the divergence, and so is a background job that has not ended 60 s
 after the stream.
+(3) The state a history leads to.  When a stream has ended and every job has finished, the
+settings the compared answers depend on are pinned by one last configuration payload and every
+open document is asked the eight request kinds; a fresh server is GIVEN the resulting state
+(files as saved last, the open documents with their buffers, the same last payload) and asked
+the same: the answers must be equal.  Whatever a didOpen / didChange / didSave / didClose
+forgot to invalidate shows here as stale-after-history:<kind>.
 """
 import collections
 import json
@@ -111,6 +117,7 @@ def main(args):
     for i, s in enumerate(streams):
         s["id"] = str(i)
     nraces = 0
+    nfinal = 0
     if streams:
         sres = run.harness("stress", streams, race=True, timeout=3400, env_extra={"GORACE": "exitcode=0 history_size=4"}, args=("-par", "4"))
         err = run.last_harness_stderr
@@ -120,6 +127,15 @@ def main(args):
                 run.diverge("panic", "server panicked: " + res["panic"][:300], s, None)
             elif res.get("stuck"):
                 run.diverge("stuck", res["stuck"][:900], s, None)
+            elif res.get("final"):
+                # the state the history led to, answered by the server that lived through it and by a fresh server given that state
+                nfinal += res["final"]["asked"]
+                for st in (res["final"]["stale"] or [])[:2]:
+                    u, k = st["what"].split("/")
+                    table[("stale-after-history:" + k, s["workspace"])] += 1
+                    run.diverge("stale-after-history:" + k, "after the stream, %s on %s answers %s; a fresh server given the same files, open documents %s and configuration answers %s  [workspace root %s, last operations %s]" % (
+                        k, u, st["got"][:260], json.dumps(res["final"]["state"], sort_keys=True), st["want"][:260], s["workspace"],
+                        [(o["op"], o.get("uri"), o.get("kind") or o.get("arg")) for o in s["ops"][-8:]]), s, None)
         # code -> spec: the events recorded during the free runs are validated by TLC against DiagTrace.tla
         validate_traces(run, streams, sres)
         seen = set()
@@ -213,4 +229,7 @@ def confirm(run, d):
         again = len(run.divergences) > before
         del run.divergences[before:]
         return again
+    if d["sig"].startswith("stale-after-history:"):
+        k = d["sig"].split(":", 1)[1]
+        return any(st["what"].endswith("/" + k) for r in res for st in ((r.get("final") or {}).get("stale") or []))
     return any(r.get("stuck") for r in res) == (d["sig"] == "stuck")
